@@ -267,6 +267,15 @@ def c03(tier, seed, replay=None):
     from checks import rules
     v2, cov2 = rules.c03_multi(tier, seed)
     rules.merge(v1, cov, v2, cov2, "multi_edges_inside_a_gather")
+    # Python control flow steered by the traced values includes try / except: programs of the engine model's fault family (an inner
+    # differentiation raises, the enclosing differentiated function catches it and retries) and its ctrl family (branches, loops)
+    from checks import agm
+    v3, cov3 = agm.run_agm("C03", tier, seed, [("fault", 2, None), ("ctrl", 2, None)], [("fault", 2, agm.MUT_TOP)],
+                           "fault and ctrl families of spec/engine/AGMProgs.tla", agm.ASSUME, write=False)
+    v1.violations += v3.violations
+    for k_ in ("states", "transitions", "traces_validated_against_impl", "evaluations", "distinct_nontrivial"):
+        cov[k_] += cov3[k_]
+    cov["control_flow_and_caught_failures"] = {k_: cov3[k_] for k_ in ("families", "model_mutants_rejected") if k_ in cov3}
     rc = v1.finish()
     vlib.write_evidence("C03", tier, seed, "model_checking", cov, ASSUME + rules.ASSUME, time.time() - t0, len(v1.violations))
     return rc
